@@ -17,6 +17,8 @@ def run(tier, only=None):
         for kind in range(11):
             conds.append(Cond("harness.h_c12", "h_edit_after_copy", t, part=kind * 100 + sh, ladder=ladder,
                               label="h_edit_after_copy[shape=%d,kind=%d]" % (sh, kind)))
+    for sh in shapes[:2]:
+        conds.append(Cond("harness.h_c12", "h_copy_chain", t, part=sh, ladder=ladder[-1:], label="h_copy_chain[shape=%d]" % sh))
     if only:
         conds = [c for c in conds if only in c.label]
     rep.bounds = {"shapes": shapes, "string_length": "<= %d (ladder %r)" % (ladder[0], ladder),
